@@ -52,6 +52,7 @@ VARIABLES
   reqs,        \* what the client sends
   payload,     \* number of raw payload atoms the client sends after an upgrade request
   pipelined,   \* the client writes everything at once (the bridge reads ahead)
+  abandon,     \* the client closes its side right after its last request, without waiting for the replies
   upEnd,       \* who ends an upgraded session: "client" (closes its side after the payload) or "service" (says goodbye and hangs up)
   bye,         \* the service's goodbye reached the client (0 / 1)
   i,           \* requests consumed by the bridge
@@ -64,7 +65,7 @@ VARIABLES
   rawToClient, \* payload atoms (wrongly) written to the client
   exit         \* "running" | "ok" | "error" | "panic" | "abort"
 
-bvars == <<mode, reqs, payload, pipelined, upEnd, bye, i, pc, out, got, lastIface, address, rawToSvc, rawToClient, exit>>
+bvars == <<mode, reqs, payload, pipelined, abandon, upEnd, bye, i, pc, out, got, lastIface, address, rawToSvc, rawToClient, exit>>
 
 Services == {"A", "B", "R"}
 
@@ -81,7 +82,7 @@ ReadReq ==
      THEN /\ i' = i + 1 /\ pc' = "route" /\ UNCHANGED exit
      ELSE \* the client closed its side: the bridge stops, reporting success
           /\ pc' = "done" /\ exit' = "ok" /\ UNCHANGED i
-  /\ UNCHANGED <<mode, reqs, payload, pipelined, upEnd, bye, out, got, lastIface, address, rawToSvc, rawToClient>>
+  /\ UNCHANGED <<mode, reqs, payload, pipelined, abandon, upEnd, bye, out, got, lastIface, address, rawToSvc, rawToClient>>
 
 \* route + connect + forward in one step (each request on a fresh connection to its target).  The target address is
 \* cached: it is looked up again only when the interface differs from the one of the previous request (a service-info
@@ -100,7 +101,7 @@ RouteForward ==
                   ELSE UNCHANGED <<address, lastIface>>
           /\ got' = [got EXCEPT ![address'] = Append(@, i)]
           /\ pc' = "relay" /\ UNCHANGED <<out, exit>>
-  /\ UNCHANGED <<mode, reqs, payload, pipelined, upEnd, bye, i, rawToSvc, rawToClient>>
+  /\ UNCHANGED <<mode, reqs, payload, pipelined, abandon, upEnd, bye, i, rawToSvc, rawToClient>>
 
 Relay ==
   /\ pc = "relay"
@@ -113,7 +114,7 @@ Relay ==
            THEN pc' = "done" /\ exit' = "error"
            ELSE IF ~wrong /\ Cur.k = "upgrade" THEN pc' = "raw" /\ UNCHANGED exit
            ELSE pc' = "read" /\ UNCHANGED exit
-  /\ UNCHANGED <<mode, reqs, payload, pipelined, upEnd, bye, i, got, lastIface, address, rawToSvc, rawToClient>>
+  /\ UNCHANGED <<mode, reqs, payload, pipelined, abandon, upEnd, bye, i, got, lastIface, address, rawToSvc, rawToClient>>
 
 \* upgraded: everything the client sends from now on belongs to the service, starting with what was read ahead
 Raw ==
@@ -128,7 +129,7 @@ Raw ==
              ELSE pc' = "done" /\ exit' = IF BugAbortAfterUpgrade THEN "abort" ELSE "ok"
      ELSE /\ bye' = 0 /\ pc' = "done"
           /\ exit' = IF BugAbortAfterUpgrade THEN "abort" ELSE "ok"
-  /\ UNCHANGED <<mode, reqs, payload, pipelined, upEnd, i, out, got, lastIface, address>>
+  /\ UNCHANGED <<mode, reqs, payload, pipelined, abandon, upEnd, i, out, got, lastIface, address>>
 
 (* direct mode: a plain pipe to one service *)
 Direct ==
@@ -145,9 +146,16 @@ Direct ==
   /\ exit' = IF BugPanicNoChild THEN "panic" ELSE "ok"
   \* the payload only has somewhere to go if the connection survived up to the upgrade request
   /\ rawToSvc' = IF \E k \in 1..Len(reqs) : ServiceCloses(reqs[k]) THEN 0 ELSE payload
-  /\ UNCHANGED <<mode, reqs, payload, pipelined, upEnd, bye, rawToClient, lastIface, address>>
+  /\ UNCHANGED <<mode, reqs, payload, pipelined, abandon, upEnd, bye, rawToClient, lastIface, address>>
 
-BNext == (mode = "resolver" /\ (ReadReq \/ RouteForward \/ Relay \/ Raw)) \/ Direct
+\* the client has gone (it closed its side right after the last request): wherever the bridge notices, it stops; a side that
+\* hangs up is not an error
+ClientGone ==
+  /\ abandon /\ mode = "resolver" /\ pc \in {"read", "route", "relay"} /\ exit = "running"
+  /\ pc' = "done" /\ exit' = "ok"
+  /\ UNCHANGED <<mode, reqs, payload, pipelined, abandon, upEnd, bye, i, out, got, lastIface, address, rawToSvc, rawToClient>>
+
+BNext == (mode = "resolver" /\ (ReadReq \/ RouteForward \/ Relay \/ Raw \/ ClientGone)) \/ Direct
 BSpec == BInit /\ [][BNext]_bvars
 
 ---------------------------------------------------------------------------
@@ -162,11 +170,14 @@ DirectView(k) ==
 
 Done == pc = "done"
 
-Transparent == (Done /\ mode = "resolver") => out = DirectView(1)
+Transparent == (Done /\ mode = "resolver" /\ ~abandon) => out = DirectView(1)
+\* a client that left early has been sent a prefix of that conversation, nothing else
+PrefixWhenAbandoned ==
+  (Done /\ mode = "resolver" /\ abandon) => (Len(out) <= Len(DirectView(1)) /\ out = SubSeq(DirectView(1), 1, Len(out)))
 
 \* every service received exactly the requests addressed to it, in order (the bridge switches targets)
 SwitchesTargets ==
-  (Done /\ mode = "resolver") =>
+  (Done /\ mode = "resolver" /\ ~abandon) =>
      \A s \in Services : got[s] = SelectSeq([k \in 1..i |-> k], LAMBDA k : reqs[k].svc = s)
 
 \* the payload of an upgraded session reaches the service, never the client
